@@ -163,8 +163,16 @@ func init() {
 	})
 	register(&PropDef{
 		ID: "C13", Quick: 500, Thorough: 40000, Level: "fault_enumeration", Unit: "fault_points",
-		Rule: "histories: 1-3 writers commit while a snapshotter thread takes 1-2 snapshots (so that snapshots carry a log tail recorded under concurrent commits) and every commit is also serialized to a commit.Log on a SimFile; crash points per stream: every byte prefix while the stream is below the tier's bound (quick 2 KiB, thorough 64 KiB), otherwise every recorded write boundary +-2 plus a seeded sample; at a third of the points a read error replaces EOF, a third of the restores read through 1/5/64-byte chunks; oracle: Restore/Range return within 10 s without panic, a nil Restore leaves a state equal to the complete state part plus some prefix of the logged commits (reference states rebuilt by appending j commits to a fresh log), Range delivers a prefix of the original commits, each identical; evaluations = fault points; distinct = distinct (interleaving, end state) of the producing histories",
+		Rule: "histories: every 25th run logs one transaction that alternates between two full 16K blocks (two commits above 1 MiB each, several s2 frames, 16K shard headers per buffer) and cuts the log at every frame boundary +-2; otherwise 1-3 writers commit while a snapshotter thread takes 1-2 snapshots (so that snapshots carry a log tail recorded under concurrent commits) and every commit is also serialized to a commit.Log on a SimFile; crash points per stream: every byte prefix while the stream is below the tier's bound (quick 2 KiB, thorough 64 KiB), otherwise every recorded write boundary +-2 plus a seeded sample; at a third of the points a read error replaces EOF, a third of the restores read through 1/5/64-byte chunks; oracle: Restore/Range return within 10 s without panic, a nil Restore leaves a state equal to the complete state part plus some prefix of the logged commits (reference states rebuilt by appending j commits to a fresh log), Range delivers a prefix of the original commits, each identical; evaluations = fault points; distinct = distinct (interleaving, end state) of the producing histories",
 		Gen: func(seed uint64, run int, tier string) *Case {
+			if run%25 == 24 {
+				// commits above 1 MiB (several s2 frames, 16K shard headers per buffer)
+				r := NewRng(seed, uint64(run), 8)
+				return &Case{Prop: "C13", World: "biglog", Seed: seed, Run: run,
+					Schema: []ColSpec{{Name: "expire", Kind: KInt64}, {Name: "a", Kind: KString}, {Name: "b", Kind: KInt64}},
+					Cfg: Config{Capacity: 1024, Prefill: &Prefill{Blocks: 2, KeepFull: []int{0, 1}},
+						Params: map[string]int{"str_len": r.Range(30, 70), "rows": []int{16384, 16384, 12000}[r.Intn(3)]}}}
+			}
 			cs := genConc("C13", seed, run, concProfile{minWriters: 1, maxWriters: 3, maxTxns: 3, maxOps: 3, snapshots: 1,
 				wUpdate: 8, wMerge: 3, wInsert: 3, wDeleteOwn: 2, wRangeWrite: 1,
 				pAbort: 0.05, multiBlock: 0.4, maxCols: 4, stableRows: [2]int{1, 4}}, knownAvoid("C13", seed, run))
@@ -181,6 +189,9 @@ func init() {
 			bound, samples := 2048, 120
 			if cs.Cfg.Params["tier_thorough"] == 1 {
 				bound, samples = 65536, 600
+			}
+			if cs.World == "biglog" {
+				return runBigLog(cs)
 			}
 			return runConc(cs, concOracles{log: true, truncate: [2]int{bound, samples}})
 		},
